@@ -3,7 +3,8 @@ use crate::rng::Rng;
 use crate::srv::*;
 use crate::tok::*;
 
-pub const KEYS: &[&[u8]] = &[b"k1", b"k2", b"k3", b"", b"\x00\xffb", b"key:with space"];
+// k1/ka share engine shard 1 (FNV-1a mod 16), k2/kb shard 8: same-shard and cross-shard paths are both exercised
+pub const KEYS: &[&[u8]] = &[b"k1", b"k2", b"k3", b"", b"\x00\xffb", b"key:with space", b"ka", b"kb"];
 pub const OTHER_KEYS: &[&[u8]] = &[b"l1", b"s1", b"h1", b"z1", b"x1"];
 pub const VALUES: &[&[u8]] = &[b"", b"a", b"hello", b"10", b"-1", b"9223372036854775807", b"-9223372036854775808",
     b"007", b" 5", b"+5", b"1.5", b"\x00\xff\r\n", b"9223372036854775806", b"abc def"];
@@ -13,9 +14,11 @@ pub const IDX: &[&[u8]] = &[b"0", b"1", b"-1", b"2", b"-2", b"3", b"-3", b"5", b
     b"9223372036854775807", b"-9223372036854775808", b"x", b"4", b"-4", b"-6", b"6"];
 pub const OFFS: &[&[u8]] = &[b"0", b"1", b"3", b"10", b"536870913", b"18446744073709551615", b"-1", b"7", b"abc", b"536870912"];
 pub const TTLS: &[&[u8]] = &[b"100", b"1000", b"18446744073709551615", b"9223372036854775807", b"abc", b"-1", b"", b"100000"];
+// millisecond TTLs: never short enough to expire during a history (expiry itself is C02's subject)
+pub const TTLS_MS: &[&[u8]] = &[b"100000", b"1000000", b"18446744073709551615", b"9223372036854775807", b"abc", b"-1", b"", b"9223372036854775807000"];
 pub const PATTERNS: &[&[u8]] = &[b"*", b"k*", b"k?", b"?1", b"[kl]*", b"k[1-2]", b"[^k]*", b"*1", b"\\k1", b"k\\*", b"", b"*:*", b"k[", b"**1", b"*?*"];
 
-pub const WITH_OTHER_TYPES: bool = false;
+pub const WITH_OTHER_TYPES: bool = true;
 
 fn pick<'a>(r: &mut Rng, p: &'a [&'a [u8]]) -> &'a [u8] { *r.pick(p) }
 fn key<'a>(r: &mut Rng) -> &'a [u8] {
@@ -32,7 +35,7 @@ pub fn gen_cmd(r: &mut Rng) -> Vec<Vec<u8>> {
                 match r.below(6) {
                     0 => c.push(v(b"NX")), 1 => c.push(v(b"xx")),
                     2 => { c.push(v(b"EX")); c.push(v(pick(r, TTLS))); }
-                    3 => { c.push(v(b"px")); c.push(v(pick(r, TTLS))); }
+                    3 => { c.push(v(b"px")); c.push(v(pick(r, TTLS_MS))); }
                     4 => c.push(v(b"EX")),
                     _ => c.push(v(b"BOGUS")),
                 }
@@ -46,11 +49,18 @@ pub fn gen_cmd(r: &mut Rng) -> Vec<Vec<u8>> {
         7 => vec![v(b"GETSET"), v(k), v(pick(r, VALUES))],
         8 => vec![v(b"SETNX"), v(k), v(pick(r, VALUES))],
         9 => vec![v(b"SETEX"), v(k), v(pick(r, TTLS)), v(pick(r, VALUES))],
-        10 => vec![v(b"PSETEX"), v(k), v(pick(r, TTLS)), v(pick(r, VALUES))],
+        10 => vec![v(b"PSETEX"), v(k), v(pick(r, TTLS_MS)), v(pick(r, VALUES))],
         11 => vec![v(b"APPEND"), v(k), v(pick(r, VALUES))],
         12 => vec![v(b"STRLEN"), v(k)],
         13 | 14 => vec![v(b"GETRANGE"), v(k), v(pick(r, IDX)), v(pick(r, IDX))],
-        15 => vec![v(b"SETRANGE"), v(k), v(pick(r, OFFS)), v(pick(r, VALUES))],
+        15 => {
+            // offset = the 512 MB limit with an EMPTY value is accepted and materialises a 512 MB string
+            // (the extracted model cannot build it, the reply does not fit the client's buffer): use a
+            // non-empty value there, which is refused by the same limit check
+            let off = pick(r, OFFS); let val = pick(r, VALUES);
+            let val = if off == b"536870912" && val.is_empty() { &b"a"[..] } else { val };
+            vec![v(b"SETRANGE"), v(k), v(off), v(val)]
+        }
         16 => vec![v(b"INCR"), v(k)],
         17 => vec![v(b"DECR"), v(k)],
         18 => vec![v(b"INCRBY"), v(k), v(pick(r, INTS))],
@@ -86,6 +96,12 @@ pub fn dump_ops(conn: i64, ops: &mut Vec<Vec<Tok>>) {
         ops.push(cmd_op(conn, &[b"GET", k]));
         ops.push(cmd_op(conn, &[b"PTTL", k]));
     }
+    if WITH_OTHER_TYPES {
+        // the keys seeded with the list / set / hash families are read back by type
+        ops.push(cmd_op(conn, &[b"LRANGE", b"l1", b"0", b"-1"]));
+        ops.push(cmd_op(conn, &[b"SMEMBERS", b"s1"]));
+        ops.push(cmd_op(conn, &[b"HGETALL", b"h1"]));
+    }
     ops.push(cmd_op(conn, &[b"KEYS", b"*"]));
     ops.push(cmd_op(conn, &[b"DBSIZE"]));
 }
@@ -95,6 +111,13 @@ pub fn gen(seed: u64, n: usize, _tier: &str) -> Vec<Case> {
     let mut cases = vec![];
     for id in 0..n {
         let mut ops = vec![conn_op(1)];
+        if WITH_OTHER_TYPES {
+            // keys holding the other value types (C03 commands), so that every command of this
+            // family also meets a list, a set and a hash
+            if r.chance(7, 8) { ops.push(cmd_op(1, &[b"RPUSH", b"l1", b"a", b"b", b"c"])); }
+            if r.chance(7, 8) { ops.push(cmd_op(1, &[b"SADD", b"s1", b"a", b"b"])); }
+            if r.chance(7, 8) { ops.push(cmd_op(1, &[b"HSET", b"h1", b"f", b"10"])); }
+        }
         let big = r.chance(1, 4); let len = 1 + r.below(if big { 60 } else { 25 });
         for _ in 0..len {
             let c = gen_cmd(&mut r);
